@@ -15,7 +15,7 @@ META = {
         "path the real Client.bulkwalk (bulkget, _bulkwalk_fetcher, multiwalk loop) runs for every listing order "
         "of the roots; the result must equal the set derived from the database and the result of the GETNEXT "
         "walk on the same database in the same path."),
-    "bounds": ["universe 14 OIDs (quick: 10)", "root lists of 1..3 (quick 1..2) disjoint roots in every order",
+    "bounds": ["universe 14 OIDs (quick: 10); plus a universe with a 7-instance subtree next to short / empty ones, bulk 2..4", "root lists of 1..3 (quick 1..2) disjoint roots in every order",
                "bulk size 1..4 (quick 1..3)", "truncation: full / k rows (k symbolic 1..3) / partial last row (j symbolic) / stop after first all-endOfMibView row",
                "v2c everywhere, v3 authPriv on selected root sets"],
     "outside": ["bulk sizes above 4", "larger universes", "non-conformant agents (C03)"],
@@ -79,6 +79,10 @@ def make_harness(kind, root_names, universe, policy, max_bulk, traced=False, via
     return h
 
 
+# a long subtree next to short / empty ones: continuation requests carry fewer columns than the first request
+LONG = [(C.O("2.1.%d" % i), C.value_for(i)) for i in range(1, 8)] + [(C.O("2.2.1"), ("int", 1)), (C.O("4.1.0"), ("int", 2)), (C.O("4.1.1"), ("int", 3))]
+
+
 def jobs(tier):
     out = []
     names = "ABCDEZ"
@@ -103,6 +107,13 @@ def jobs(tier):
                 out.append(Job(f"bulk-v2c-{''.join(combo)}-{policy}", make_harness("v2c", combo, universe, policy, max_bulk),
                                args(universe), timeout=400 if quick else 1500, mode="E/concolic-window", functions=funcs,
                                sample_every=11))
+    for combo in (("A", "E"), ("A", "B"), ("C", "A"), ("A", "B", "E")):
+        for policy in ("full", "rows"):
+            if quick and policy == "rows" and combo != ("A", "E"):
+                continue
+            a = [Arg(f"p{i}", 1 if i in (0, 1, 2) else 0, 1) for i in range(len(LONG))] + [Arg("bulk", 2, 4), Arg("k", 2, 3)]
+            out.append(Job(f"bulk-v2c-long-{''.join(combo)}-{policy}", make_harness("v2c", combo, LONG, policy, 4), a,
+                           timeout=400 if quick else 1500, mode="E/concolic-window", functions=funcs, sample_every=11))
     for combo in ([("A",), ("A", "B")] if quick else [("A",), ("A", "B"), ("C", "D"), ("E", "B")]):
         out.append(Job(f"bulk-sha1priv-{''.join(combo)}-full", make_harness("sha1priv", combo, SUB10, "full", max_bulk),
                        args(SUB10), timeout=400 if quick else 1200, mode="E/concolic-window", functions=funcs, sample_every=11))
